@@ -317,8 +317,14 @@ let () =
                    (let (sp, sfs) = spec_run v.vparser cs in
                     obump "C03.spec_parser";
                     let s_fs = match sfs with [] -> "-" | [ f ] -> str_of_func f | _ -> "several" in
-                    if s_fs <> fn_impl then
-                      Printf.printf "ORA prop=C03 case=%d step=%d fn=%s what=emitted_function_differs_from_specification_parser spec=[%s] impl=[%s]\n" !case_id !step kind s_fs fn_impl
+                    if s_fs <> fn_impl then begin
+                      Printf.printf "ORA prop=C03 case=%d step=%d fn=%s what=emitted_function_differs_from_specification_parser spec=[%s] impl=[%s]\n" !case_id !step kind s_fs fn_impl;
+                      (* C08: the pen is the fold of the SGR parameters RECEIVED - a sequence that is not select-graphic-
+                         rendition by the specification parser (private marker, intermediate) must not act as one, and vice versa *)
+                      let is_sgr x = String.length x >= 3 && String.sub x 0 3 = "Sgr" in
+                      if is_sgr s_fs <> is_sgr fn_impl || (is_sgr s_fs && is_sgr fn_impl) then
+                        Printf.printf "ORA prop=C08 case=%d step=%d fn=%s what=sgr_received_differs_from_specification_parser spec=[%s] impl=[%s]\n" !case_id !step kind s_fs fn_impl
+                    end
                     else if not (parser_eqb sp p.vparser) then
                       Printf.printf "ORA prop=C03 case=%d step=%d fn=%s what=parser_state_differs_from_specification_parser\n" !case_id !step kind);
                    (* C03: dispatch is memoryless - a fresh parser fed the same characters from ground state
@@ -467,11 +473,17 @@ let () =
                       (fun c ->
                         incr sweep_points;
                         let sp = spec_sig !sweep_spec_parser c in
-                        if sp <> sg then
+                        if sp <> sg then begin
                           (* C03 is a statement about this very table: the implementation's transition / action for
                              (state, character) differs from the specification - a concrete failing input *)
-                          Printf.printf "ORA prop=C03 kind=sweep state=%d char=%d input=[%s] spec=[%s] impl=[%s]\n" !sweep_state c
-                            (String.concat "," (List.map string_of_int (!sweep_intro @ [ c ]))) sp sg;
+                          let inp = String.concat "," (List.map string_of_int (!sweep_intro @ [ c ])) in
+                          Printf.printf "ORA prop=C03 kind=sweep state=%d char=%d input=[%s] spec=[%s] impl=[%s]\n" !sweep_state c inp sp sg;
+                          (* C20: inside a control string or a CSI / DCS sequence the specification consumes this character
+                             silently (same state, no function) - the implementation ends the sequence or emits something *)
+                          let marked = List.exists (fun x -> (x >= 0x3c && x <= 0x3f) || (x >= 0x20 && x <= 0x2f)) !sweep_intro in
+                          if (!sweep_state >= 6 || (!sweep_state >= 3 && marked)) && sp = string_of_int !sweep_state ^ " -" then
+                            Printf.printf "ORA prop=C20 kind=sweep state=%d char=%d input=[%s] spec=[%s] impl=[%s]\n" !sweep_state c inp sp sg
+                        end;
                         let m = model_sig p c in
                         if m <> sg then begin
                           incr divs;
